@@ -185,6 +185,9 @@ def api_level_hint(name, c):
 
 def run_streams(ctx, P):
     res = {"violations": [], "known": [], "coverage": {}}
+    if P.get("premain"):
+        r = c13_premain(ctx, P)
+        res["violations"] += r["violations"]; res["coverage"].update(r["coverage"])
     for modname in P.get("streams", []):
         fn = "run"
         if ":" in modname:
@@ -195,6 +198,29 @@ def run_streams(ctx, P):
         res["known"] += r.get("known", [])
         for k, v in r.get("coverage", {}).items():
             res["coverage"][k] = v
+    return res
+
+def c13_premain(ctx, P):
+    """C13, constant initialisation: dump_tables (first object on the link line) snapshots every table in a
+    namespace-scope initialiser, i.e. before the library's own translation units are initialised, and again in
+    main(); the two must be equal in every language mode."""
+    res = {"violations": [], "known": [], "coverage": {}}
+    modes = {}
+    for m in vlib.MODES:
+        fn = os.path.join(ctx.bd, "tables_%s.txt" % m)
+        if not os.path.exists(fn):
+            continue
+        line = next((l for l in open(fn).read().splitlines() if l.startswith("premain ")), None)
+        modes[m] = line
+        if line is None or line.startswith("premain differs"):
+            t = (line or "premain <missing>").split()
+            rp = vlib.write_replay(ctx.pid, "premain_cpp%s" % m, {
+                "kind": "table-not-constant-initialised", "language_mode": "c++" + m,
+                "table": t[2] if len(t) > 2 else None, "index (code point / entry)": t[3] if len(t) > 3 else None,
+                "value_before_main": t[4] if len(t) > 4 else None, "value_in_main": t[5] if len(t) > 5 else None,
+                "how_to_replay": "%s/dump_tables_%s | head -1   (harness/dump_tables.cpp is the first object on the link line; its namespace-scope snapshot runs before the library's initialisers)" % (ctx.bd, m)})
+            res["violations"].append((rp, "a table of the -std=c++%s build has a different value before main() than in main(): %s" % (m, " ".join(t[2:])), False))
+    res["coverage"]["premain_snapshot"] = {"modes": modes, "rule": "every code-point set, character class, kEncByte, hex tables, the scheme table and kPartStart, read in a namespace-scope initialiser that runs before the library's translation units are initialised, equal their values in main()"}
     return res
 
 def P(level, streams=None, configs=None, **kw):
@@ -215,7 +241,7 @@ TB_ICU_LAWS = "ICU laws H_ascii and H_keep (Properties_C07.v) are explicit premi
 TB_ICU_LAWS2 = "ICU laws idna_ascii_lower (Properties_C08.v) and idna_idem (Proofs/ReparseDefs.v) are explicit premises of the invariance theorems (C02_reparse itself has none); they are sampled against the real ICU on every run, not proved"
 
 PROPS = {
-    "C13": P("proof", proof_search=c13_search,
+    "C13": P("proof", proof_search=c13_search, premain=True,
         trusted_base=[
             "translator T1: harness/dump_tables.cpp compiled by g++ in -std=c++11/14/17/20 against /repo's current headers and sources (-fno-access-control) + harness/gen_tables.py",
             "Spec.CodePoints: hand transcription of the Standard's set definitions (DESIGN appendix A.1)"],
